@@ -88,6 +88,12 @@ CLAIMED = {
             'so by induction the chain terminates and delivers every object once. One known finding (245-byte value never fits).',
             'Extended category bounded in the NUMBER of populated extended objects (3). Client-side decode of the response is covered by the bounded C01/C02 stand-in. '
             'S-PAGE transcription; A1-A10; z3/cvc5.', 'contract-based deductive verification (pyvc VC generation from /repo AST + z3/cvc5)', 'DESIGN.md section 4 C20'),
+    'C16': ('proof', 'Contracts on the Twisted ModbusClientProtocol operations over the ghost map pending: tid -> deferred, each proved from an arbitrary pending map '
+            '(0..3 other outstanding requests, symbolic pairwise-distinct ids, arbitrary tid counter): execute allocates (tid+1) mod 65536, writes the frame carrying '
+            'it, files the returned deferred under it and touches nothing else; _handleResponse fires exactly pending[reply tid] once and removes it, an unknown id '
+            'fires nothing; connectionLost fails every pending deferred once with a connection error and later requests fail at once; FIFO variant pairs in arrival order.',
+            'Bounded in the NUMBER of other outstanding requests (<= 3; the untouched entries are symmetric). twisted Deferred / defer.fail / Failure are external '
+            '(ghost firing log). One known finding (tid reuse after wrap while still pending).', 'contract-based deductive verification (pyvc VC generation from /repo AST + z3/cvc5)', 'DESIGN.md section 4 C16'),
 }
 NOT_YET = 'check not built yet at this commit (planned: contract-based, see DESIGN.md section 4)'
 ALL = ['C%02d' % i for i in range(1, 21)]
